@@ -248,7 +248,7 @@ class Gen:
             else:
                 c = r.random()
                 if c < 0.3:
-                    inner = {"__cls__": "ScriptedDetector", "params": {"cpts": tup(*sorted(int(v) for v in r.integers(1, 30, size=int(r.integers(0, 5)))))}}
+                    inner = {"__cls__": self.choice(["ScriptedDetector", "ScriptedDetectorNoFit"]), "params": {"cpts": tup(*sorted(int(v) for v in r.integers(1, 30, size=int(r.integers(0, 5)))))}}
                 elif c < 0.65:
                     inner = {"__cls__": "MovingWindow", "params": {"change_score": pick(["cost_opt", "change_score"]), "bandwidth": int(r.integers(2, 5)), "threshold_scale": T(), "level": 0.2, "min_detection_interval": 1}}
                 else:
@@ -266,6 +266,7 @@ class Gen:
         "MVCAPA": [("max_segment_length", [4, 9, 15]), ("collective_penalty_scale", [0.5, 2.0]), ("collective_penalty", ["dense", "sparse", "combined", {"__fn__": "pen_flat"}]), ("ignore_point_anomalies", [True, False])],
         "StatThresholdAnomaliser": [("stat_lower", [-2.0, -1.0, 0.0]), ("stat_upper", [1.0, 2.0, 0.5]), ("stat", [{"__fn__": "np.mean"}, {"__fn__": "np.median"}])],
         "ScriptedDetector": [("cpts", [tup(), tup(2, 5), tup(1, 2, 3)])],
+        "ScriptedDetectorNoFit": [("cpts", [tup(), tup(2, 5), tup(1, 2, 3)])],
     }
     KIND_OF = {v: k for k, v in COST_CLASS.items()}
 
